@@ -326,22 +326,26 @@ MIRI_TARGET = os.path.join(TARGET, "miri")
 CORPUS_SMALL = os.path.join(TARGET, "corpus_small")
 
 
-def build_corpus_small(limit=400):
-    """the corpus texts that are short enough to be interpreted by Miri in a reasonable time"""
+def build_corpus_small(limit=300, max_files=32):
+    """a few short corpus texts for the interpreted (Miri) runs: reading hundreds of files through Miri's file shims costs minutes"""
     build_corpus()
     lk = _lock("corpus_small")
     try:
         stamp = os.path.join(CORPUS_SMALL, ".stamp")
-        want = open(os.path.join(CORPUS, ".stamp")).read() + f":{limit}"
+        want = open(os.path.join(CORPUS, ".stamp")).read() + f":{limit}:{max_files}"
         if os.path.exists(stamp) and open(stamp).read() == want:
             return CORPUS_SMALL
         shutil.rmtree(CORPUS_SMALL, ignore_errors=True)
         os.makedirs(CORPUS_SMALL)
+        small = []
         for f in sorted(os.listdir(CORPUS)):
             if f.endswith(".capy"):
                 t = open(os.path.join(CORPUS, f), encoding="utf-8").read()
-                if len(t.encode()) <= limit:
-                    shutil.copyfile(os.path.join(CORPUS, f), os.path.join(CORPUS_SMALL, f))
+                if 20 <= len(t.encode()) <= limit:
+                    small.append(f)
+        step = max(1, len(small) // max_files)
+        for f in small[::step][:max_files]:
+            shutil.copyfile(os.path.join(CORPUS, f), os.path.join(CORPUS_SMALL, f))
         open(stamp, "w").write(want)
     finally:
         lk.close()
